@@ -11,12 +11,12 @@ import os
 from cklmon import core
 from cklmon.core import observe
 
-RULE = ("alphabet of 18 commands (define, assign, read, define+call a function reading a session variable, failing "
+RULE = ("alphabet of 20 commands (define, assign, read, define+call a function reading a session variable, failing "
         "expression, multi-statement call failing midway, syntax error, require of a good stateful module, of a missing, "
         "a broken-at-runtime, a broken-syntax and a circular module, loop aborted by an error after updating an "
-        "accumulator, require of a module whose file the host writes only later, that host action, a failing call 90 frames deep, script files run from inside a function - non-secure "
-        "sessions for those); all histories of length <= 3 (quick) / <= 4 (thorough) on one interpreter, all histories <= 2 / "
-        "<= 3 over two interleaved interpreters (36 symbols), all histories <= 2 with one caller-supplied environment passed "
+        "accumulator, require of a module whose file the host writes only later, that host action, a failing call 90 frames deep, script files run from inside a function (one by a relative path) - non-secure "
+        "sessions for those -, calls of 700 statements ending in a syntax error / a runtime error); all histories of length <= 3 (quick) / <= 4 (thorough) on one interpreter, all histories <= 2 / "
+        "<= 3 over two interleaved interpreters (40 symbols), all histories <= 2 with one caller-supplied environment passed "
         "to every call, random histories to length 30, random histories fed line by line (some commands broken over two "
         "lines) to the interactive host ckl.repl in a child process; each followed by a fixed "
         "probe sequence; a case is one history; non-trivial = it contains a failing command followed by another command; "
@@ -58,14 +58,19 @@ COMMANDS = [
     ("deep-fail", "def rec(n) if n == 0 then error 'deep' else rec(n - 1); rec(90)"),
     # script files run from inside a function (non-secure sessions only): their definitions are session definitions
     ("run-from-fn", "def loader(f) run(f); loader('{MODDIR}/defs_file.ckl'); from_file"),
-    ("run-failing-from-fn", "def loader2(f) run(f); loader2('{MODDIR}/failing_file.ckl')"),
+    ("run-failing-from-fn", "def loader2(f) run(f); loader2('{RELMODDIR}/failing_file.ckl')"),
+    # one call with many hundred top-level statements: rejected as a whole when its last statement does not parse,
+    # kept up to the failure point when its last statement fails at run time
+    ("long-script-syntax", "; ".join("def bigs%d = %d" % (i, i) for i in range(700)) + "; x = 111; def = "),
+    ("long-script-runtime", "; ".join("def bigr%d = %d" % (i, i) for i in range(700)) + "; nosuch_at_the_end; def bigr_after = 1"),
 ]
 RUN_FILES = {"defs_file.ckl": "def from_file = 41;\ndef from_file_fn() from_file + 1;\n",
              "failing_file.ckl": "def early = 7;\nerror 'fromfile';\ndef late = 8;\n"}
 NEEDS_OPEN_SESSION = {"run-from-fn", "run-failing-from-fn"}
+N_CORE = 18
 LATE_SRC = "append(LOADLOG, 'late_mod');\ndef v = 77;\n"
 PROBES = ["x", "a1", "b1", "c1", "acc", "f(1)", "good->get()", "good->dbl(4)", "z", "never", "a", "b", "late_mod->v", "from_file", "from_file_fn()",
-          "early", "late", "rec(0)", "string(LOADLOG)"]
+          "early", "late", "rec(0)", "bigs0", "bigs699", "bigr0", "bigr699", "bigr_after", "string(LOADLOG)"]
 ERR = ("error", "'ERROR'")
 
 
@@ -155,6 +160,12 @@ class Model:
             b["loader2"] = True
             b["early"] = 7
             return ("error", "'fromfile'")
+        if name == "long-script-syntax":
+            return ("syntax",)
+        if name == "long-script-runtime":
+            b["bigr0"] = 0
+            b["bigr699"] = 699
+            return ERR
         if name == "req-late":
             if not self.late_loaded:
                 if not self.late_file:
@@ -185,8 +196,10 @@ class Model:
             return ("value", str(b[p])) if p in b else ERR
         if p == "from_file_fn()":
             return ("value", "42") if "from_file_fn" in b else ERR
-        if p == "late":
+        if p in ("late", "bigs0", "bigs699", "bigr_after"):
             return ERR
+        if p in ("bigr0", "bigr699"):
+            return ("value", str(b[p])) if p in b else ERR
         if p == "rec(0)":
             return ("error", "'deep'") if "rec" in b else ERR
         if p == "string(LOADLOG)":
@@ -215,7 +228,7 @@ class Session:
             with open(os.path.join(self.moddir, "late_mod.ckl"), "w") as f:
                 f.write(LATE_SRC)
             return ("value", "host")
-        src = src.replace("{MODDIR}", self.moddir)
+        src = src.replace("{MODDIR}", self.moddir).replace("{RELMODDIR}", os.path.relpath(self.moddir))
         if self.caller_env is not None:
             o = observe(lambda: self.it.interpret(src, "session", self.caller_env), 600000)
         else:
@@ -246,7 +259,8 @@ def write_modules(moddir, variant=0):
 def residue_kind(name):
     return {"req-missing": "failed-require", "req-broken-rt": "failed-require", "req-broken-syn": "failed-require",
             "req-cyclic": "circular-require", "req-late": "failed-require", "deep-fail": "failed-expression",
-            "run-failing-from-fn": "partial-call", "midway": "partial-call", "loop-abort": "partial-call", "fail": "failed-expression",
+            "run-failing-from-fn": "partial-call", "long-script-syntax": "syntax-error",
+            "long-script-runtime": "partial-call", "midway": "partial-call", "loop-abort": "partial-call", "fail": "failed-expression",
             "syntax": "syntax-error"}.get(name, "none")
 
 
@@ -413,7 +427,8 @@ def run_shard(spec, ctx):
         idx = 0
         done = 0
         for L in range(1, spec["maxlen"] + 1):
-            for h in itertools.product(range(n), repeat=L):
+            # (the two 700-statement commands take part in histories of length <= 2 and in the random ones)
+            for h in itertools.product(range(n if L <= 2 else N_CORE), repeat=L):
                 idx += 1
                 if idx % spec["of"] != spec["part"]:
                     continue
@@ -423,13 +438,13 @@ def run_shard(spec, ctx):
                     ctx.count("caller_env_histories")
                 done += 1
         ctx.extras["one_done"] = done
-        ctx.extras["one_total"] = sum(n ** L for L in range(1, spec["maxlen"] + 1))
+        ctx.extras["one_total"] = sum((n if L <= 2 else N_CORE) ** L for L in range(1, spec["maxlen"] + 1))
         ctx.sample({"history": ["require broken_rt", "require broken_rt", "require good; good->inc()"], "probes": PROBES})
     elif spec["kind"] == "two":
         idx = 0
         done = 0
-        syms = [(s, c) for s in (0, 1) for c in range(n)]
         for L in range(1, spec["maxlen"] + 1):
+            syms = [(s, c) for s in (0, 1) for c in range(n if L <= 1 else N_CORE)]
             for h in itertools.product(syms, repeat=L):
                 idx += 1
                 if idx % spec["of"] != spec["part"]:
@@ -437,7 +452,7 @@ def run_shard(spec, ctx):
                 run_history(ctx, moddir, list(h), two=True)
                 done += 1
         ctx.extras["two_done"] = done
-        ctx.extras["two_total"] = sum((2 * n) ** L for L in range(1, spec["maxlen"] + 1))
+        ctx.extras["two_total"] = sum((2 * (n if L <= 1 else N_CORE)) ** L for L in range(1, spec["maxlen"] + 1))
     elif spec["kind"] == "repl":
         r = ctx.rng
         rdir = os.path.join(os.getcwd(), "mods_repl")
@@ -470,7 +485,8 @@ def finalize(merged, tier):
     two_total = max([ex.get("two_total", 0) for spec, ex in docs] or [0])
     extra = {"exhaustive": one_done == one_total and two_done == two_total and one_total > 0,
              "exhaustive_space": "one interpreter: all %d histories of length <= %d over %d commands; two interleaved: all %d "
-                                 "histories of length <= %d over %d symbols" % (one_total, 3 if tier == "quick" else 4, len(COMMANDS), two_total, 2 if tier == "quick" else 3, 2 * len(COMMANDS))}
+                                 "histories of length <= %d over %d symbols (the two 700-statement commands only in histories of length <= 2 / <= 1)" % (
+                                     one_total, 3 if tier == "quick" else 4, len(COMMANDS), two_total, 2 if tier == "quick" else 3, 2 * len(COMMANDS))}
     if not extra["exhaustive"]:
         reasons.append("history enumeration incomplete (%d/%d, %d/%d)" % (one_done, one_total, two_done, two_total))
     if c.get("probes", 0) == 0 or c.get("random_histories", 0) == 0:
